@@ -1092,10 +1092,86 @@ def translate_dispatch(ent, allmeta):
     text = "\n".join(lines) + "\n\ndef %s.usesJunk : Bool := %s\n" % (ent["lean"], "true" if uses_junk else "false")
     return text, {"lean": ent["lean"], "dispatch": True, "uses_junk": uses_junk, "sig": [], "outs": [], "stages": [], "lets": [], "leak": [], "io": []}
 
+def translate_guard(tu, ent):
+    """the leading argument validation `if (cond) return 0;` of a public function as a Bool-valued
+    Lean function of (null flags of the pointer parameters, the integer parameters)"""
+    f = tu.funcs.get(ent["func"])
+    if not has_body(f): raise TranslateError("function %s not found" % ent["func"])
+    body = [c for c in f["inner"] if c.get("kind") == "CompoundStmt"][0]
+    params = [c for c in f.get("inner", []) if c.get("kind") == "ParmVarDecl"]
+    ex = Exec(tu, ent["func"], ent["lean"])
+    env = {}; sig = []
+    for p in params:
+        ct = tu.ctype(p["type"])
+        if isinstance(ct, TPtr):
+            env[p["name"]] = ("nullflag", p["name"] + "_null"); sig.append("(%s_null : Bool)" % p["name"])
+        elif isinstance(ct, TInt):
+            env[p["name"]] = Val(ct, var(p["name"], ct.w)); sig.append("(%s : BitVec %d)" % (p["name"], ct.w))
+        else:
+            raise TranslateError("guard: parameter type %r" % ct)
+    first = None
+    for st in body.get("inner", []):
+        if st.get("kind") == "IfStmt": first = st; break
+        if st.get("kind") != "DeclStmt": break
+    def returns_zero(n):
+        if n.get("kind") == "CompoundStmt":
+            inner = [c for c in n.get("inner", [])]
+            return len(inner) == 1 and returns_zero(inner[0])
+        if n.get("kind") == "ReturnStmt":
+            try:
+                v = ex.rvalue(n["inner"][0], {})
+                return v.e.is_const() and v.e.val == 0
+            except Exception:
+                return False
+        return False
+    if first is None or not returns_zero(first["inner"][1]):
+        cond = "false"
+    else:
+        def strip(n):
+            while n.get("kind") in ("ParenExpr", "ImplicitCastExpr") and n.get("inner"): n = n["inner"][0]
+            return n
+        def tr(n):
+            k = n.get("kind")
+            if k == "ParenExpr": return tr(n["inner"][0])
+            if k == "ImplicitCastExpr" and n.get("castKind") in ("PointerToBoolean", "IntegralToBoolean", "IntegralCast", "LValueToRValue", "NoOp"):
+                inner = n["inner"][0]
+                if n.get("castKind") == "PointerToBoolean":
+                    b = strip(inner)
+                    if b.get("kind") == "DeclRefExpr" and isinstance(env.get(b["referencedDecl"]["name"]), tuple):
+                        return "(!%s)" % env[b["referencedDecl"]["name"]][1]
+                    raise TranslateError("guard: pointer expression")
+                return tr(inner)
+            if k == "BinaryOperator" and n["opcode"] in ("||", "&&"):
+                return "(%s %s %s)" % (tr(n["inner"][0]), n["opcode"], tr(n["inner"][1]))
+            if k == "UnaryOperator" and n["opcode"] == "!":
+                b = strip(n["inner"][0])
+                if b.get("kind") == "DeclRefExpr" and isinstance(env.get(b["referencedDecl"]["name"]), tuple):
+                    return env[b["referencedDecl"]["name"]][1]
+                return "(!%s)" % tr(n["inner"][0])
+            if k == "BinaryOperator" and n["opcode"] in ("<", ">", "<=", ">=", "==", "!="):
+                a = ex.rvalue(n["inner"][0], env); b = ex.rvalue(n["inner"][1], env)
+                at = a.ct
+                if a.e.w != b.e.w: raise TranslateError("guard: width mismatch")
+                op = n["opcode"]
+                ra, rb = render(a.e), render(b.e)
+                if op == "==": return "(%s == %s)" % (ra, rb)
+                if op == "!=": return "(%s != %s)" % (ra, rb)
+                if at.signed:
+                    m = {"<": "BitVec.slt %s %s", ">": "BitVec.slt %s %s", "<=": "BitVec.sle %s %s", ">=": "BitVec.sle %s %s"}[op]
+                else:
+                    m = {"<": "BitVec.ult %s %s", ">": "BitVec.ult %s %s", "<=": "BitVec.ule %s %s", ">=": "BitVec.ule %s %s"}[op]
+                return "(" + (m % ((ra, rb) if op in ("<", "<=") else (rb, ra))) + ")"
+            raise TranslateError("guard: unsupported condition node " + str(k))
+        cond = tr(first["inner"][0])
+    text = "def %s %s : Bool :=\n  %s\n" % (ent["lean"], " ".join(sig), cond)
+    return text, {"lean": ent["lean"], "guard": cond, "sig": [], "outs": [], "stages": [], "lets": [], "leak": [], "io": []}
+
 def translate(tu, ent, registry, sigs, lane=None, probe=False):
     """returns (lean text, meta)"""
     if "table" in ent:
         return translate_table(tu, ent)
+    if ent.get("guard"):
+        return translate_guard(tu, ent)
     fname = ent["func"]; lname = ent["lean"] + ("_lane" if lane else "")
     f = tu.funcs.get(fname)
     if not has_body(f):
@@ -1327,7 +1403,7 @@ def main():
     sigs = {}
     for mod in man["modules"]:
         for ent in mod["entries"]:
-            if ent.get("piece") is None and "func" in ent:
+            if ent.get("piece") is None and "func" in ent and not ent.get("guard"):
                 registries.setdefault(ent["file"], {}).setdefault(ent["func"], []).append(ent)
     for mod in man["modules"]:
         imports = mod.get("imports", [])
